@@ -3092,32 +3092,12 @@ def _parse_simple_lines(
             )
 
             if promoted_names:
-                def _rewrite(nodes: List[object]) -> List[object]:
-                    rewritten: List[object] = []
-                    for node in nodes:
-                        if isinstance(node, VarDecl) and node.name in promoted_names:
-                            rewritten.append(VarAssign(name=node.name, expr=node.expr))
-                            continue
-                        if isinstance(node, IfStatement):
-                            new_branches = [
-                                ConditionalBranch(
-                                    condition=b.condition,
-                                    body=_rewrite(b.body),
-                                )
-                                for b in node.branches
-                            ]
-                            new_else = _rewrite(node.else_body)
-                            rewritten.append(
-                                IfStatement(branches=new_branches, else_body=new_else)
-                            )
-                            continue
-                        rewritten.append(node)
-                    return rewritten
-
+                # (placeholders of names lifted further in are dropped, see _rewrite_nodes)
+                promoted_set = set(promoted_names)
                 for idx, branch in enumerate(branches):
-                    branch.body = _rewrite(branch_entries[idx][1])
+                    branch.body = _rewrite_nodes(branch_entries[idx][1], promoted_set)
                 if else_entry is not None:
-                    else_body = _rewrite(else_body)
+                    else_body = _rewrite_nodes(else_body, promoted_set)
 
             body.extend(
                 _make_promotion_decls(promoted_names, ctx, scope, depth)
